@@ -114,3 +114,20 @@ func verifSplitArea(area1, area2 float64) float64 {
 	}
 	return area2
 }
+
+// VerifGate, when set (before any goroutine is started), is called at the gate points of the
+// long-running operations with the object that is executing: once per scan-beam of an engine
+// execution (*clipperBase, see VerifBase64/VerifBaseD), once per path of a ClipperOffset group
+// (*ClipperOffset) and once per path of RectClip64.Execute (*RectClip64). A blocking hook lets a
+// scheduler interleave concurrent calls deterministically.
+var VerifGate func(obj any)
+
+func verifGate(obj any) {
+	if VerifGate != nil {
+		VerifGate(obj)
+	}
+}
+
+// VerifBase64 / VerifBaseD return the object the engine passes to VerifGate.
+func VerifBase64(c *clipper64) any { return c.clipperBase }
+func VerifBaseD(c *clipperD) any   { return c.clipperBase }
